@@ -161,4 +161,36 @@ def updateOp (data : Data) (s : State) : Except Err State :=
   | .error e => .error e
   | .ok d => .ok { s with dest := some d }
 
+/-! ### histories: several calls on one `UserFields` object
+
+  Every public method starts with `self.loaddoc()`, which re-reads `self.src_file`; nothing of a previous call
+  survives in the object except `src_file` / `dest_file`.  So a call is a function of the source as it is when the
+  call is made.  `inPlace` = the destination is the source (same path / same buffer): the update rewrites it. -/
+
+inductive Op where
+  | list
+  | update (data : Data) (inPlace : Bool)
+deriving Repr
+
+inductive Res where
+  | rows (r : List (Option Str × Option Str × Option Str))
+  | updated (d : Doc)
+  | failed (e : Err)
+deriving Repr
+
+def step (s : State) : Op → State × Res
+  | .list => (s, .rows (listFields (fieldsOf s.src)))
+  | .update data inPlace =>
+    match updateDoc data s.src with
+    | .error e => (s, .failed e)
+    | .ok d => ({ src := if inPlace then d else s.src, dest := some d }, .updated d)
+
+def run (s : State) : List Op → State
+  | [] => s
+  | op :: ops => run (step s op).1 ops
+
+def Op.keepsSource : Op → Bool
+  | .list => true
+  | .update _ inPlace => !inPlace
+
 end OdfModel.UserField
